@@ -296,6 +296,12 @@ func runC03(r *Run) {
 			name = append(utf16le("127.0.0.1."), 0, 0)
 		case 5:
 			name = append([]byte{0x00, 0xD8, 0x00, 0xDC}, utf16le(server)...)
+		case 6, 7:
+			// a name that is not the allowed one but whose code units have the allowed name's bytes as
+			// their low bytes (U+0131 for '1', U+2E31, …): it must not be read as the allowed name
+			name = append(utf16le(server), 0, 0)
+			k := 2 * rng.Intn(len(server))
+			name[k+1] = byte([]int{0x01, 0x02, 0x20, 0x7f, 0x80, 0xff}[rng.Intn(6)])
 		}
 		body := bodyChannel(port, name)
 		if rng.Intn(12) == 0 { // over-long name length field
